@@ -7,6 +7,7 @@ import (
 	"go/types"
 	"math"
 	"math/rand"
+	"os"
 	"strings"
 	"sync"
 	"time"
@@ -76,6 +77,7 @@ type Interp struct {
 	qcacheHits   int
 	focus        []*Term
 	errWhere     string
+	errStack     []string
 	pinned       []uint64
 	deadline     time.Time
 	inPath       bool
@@ -88,6 +90,8 @@ type Interp struct {
 	deferMemo    map[*ssa.Function]bool
 	rtErrT       types.Type
 }
+
+var debugStack = os.Getenv("SYMGO_STACK") != ""
 
 type Frame struct {
 	fn       *ssa.Function
@@ -253,6 +257,9 @@ func (in *Interp) call0(fr *Frame) (ret Value) {
 		if !isGo {
 			if in.errWhere == "" {
 				in.errWhere = in.where()
+			}
+			if debugStack && len(in.errStack) < 40 {
+				in.errStack = append(in.errStack, fn.String())
 			}
 			in.curFn, in.curInstr = saveFn, saveInstr
 			panic(r)
